@@ -41,9 +41,11 @@ def hta_setup() -> None:
     import hta  # noqa: F401
     assert os.path.realpath(hta.__file__).startswith(os.path.realpath(REPO)), hta.__file__
     from hta.configs.config import logger
-    logger.setLevel(logging.CRITICAL)
-    logging.getLogger("hta").setLevel(logging.CRITICAL)
-    logging.disable(logging.CRITICAL)
+    if not os.environ.get("HTA_VERIF_LOG"):
+        logger.setLevel(logging.CRITICAL)
+        logging.getLogger("hta").setLevel(logging.CRITICAL)
+    if not os.environ.get("HTA_VERIF_LOG"):
+        logging.disable(logging.CRITICAL)
     _hta_ready = True
 
 
